@@ -88,11 +88,14 @@ def step_limit_case(cfg, twin, m):
 
 # -- (b) deadlines
 
-def deadline_case(cfg, twin, limit, base, plan):
-    """Step loop under a virtual clock with build_timeout=limit. Returns dict of probes."""
+def deadline_case(cfg, twin, limit, base, plan, slack=None):
+    """Step loop under a virtual clock with build_timeout=limit (and, with slack, a step limit
+    larger than the natural length, which must change nothing). Returns dict of probes."""
     n = len(twin.steps)
     opts = dict(cfg.opts)
     opts['build_timeout'] = limit
+    if slack is not None:
+        opts['max_steps'] = n + slack
     fresh(cfg)
     clock = proofsim.VClock(base, plan)
     arg = lexgen.build_argument(cfg.prems, cfg.conc)
@@ -201,13 +204,15 @@ def _deadline_loop(cfg, twin, limit, tab, clock, elapsed, t0, model_starts, info
     info['steps'] = len(tab.history)
     return info
 
-def deadline_other_drives(cfg, limit, base, plan, ref):
+def deadline_other_drives(cfg, limit, base, plan, ref, max_steps=None):
     """The same clock plan under stepiter() and build(): the clock is read at the same points, so
     all drive modes must agree with the step() loop on whether the deadline surfaced, on the
     steps recorded and on the final state."""
     for drive in ('stepiter', 'build'):
         opts = dict(cfg.opts)
         opts['build_timeout'] = limit
+        if max_steps is not None:
+            opts['max_steps'] = max_steps
         fresh(cfg)
         clock = proofsim.VClock(base, plan)
         arg = lexgen.build_argument(cfg.prems, cfg.conc)
@@ -359,6 +364,10 @@ def fault_plan(ctx, cfg, twin):
     faults.append(['deadline', limit, 0, {}])                 # stalled clock
     faults.append(['deadline', 10 ** 9, 1, {}])               # ticking clock, generous limit
     faults.append(['deadline', frng.choice((3, 10, 30)), 1, {}])   # ticking clock, tight limit
+    # both limits at once: a step limit that cannot bite next to the time limit
+    for f in faults:
+        if f[0] == 'deadline':
+            f.append(frng.choice((None, None, 1, 3, 50)))
     ops = [frng.choice(LIFE_OPS) for _ in range(frng.randrange(3, 13))]
     faults.append(['lifecycle', ops, frng.random() < 0.8, frng.random() < 0.85, frng.random() < 0.8])
     return faults
@@ -369,8 +378,9 @@ def apply_fault(cfg, twin, f):
         return ('step_limit', bit, f[1])
     if f[0] == 'deadline':
         plan = {int(k): v for k, v in f[3].items()}
-        info = deadline_case(cfg, twin, f[1], f[2], plan)
-        deadline_other_drives(cfg, f[1], f[2], plan, info['final'])
+        slack = f[4] if len(f) > 4 else None
+        info = deadline_case(cfg, twin, f[1], f[2], plan, slack)
+        deadline_other_drives(cfg, f[1], f[2], plan, info['final'], None if slack is None else len(twin.steps) + slack)
         kind = 'stall' if (not f[3] and f[2] == 0) else 'timeout'
         return (kind, info['raised'], info)
     if f[0] == 'lifecycle':
